@@ -288,18 +288,9 @@ def judge(cases: list[dict], run: Run, shards: int = 8) -> dict:
     tmp = Path(tempfile.mkdtemp(prefix="edit-", dir=tlc.WORK))
     try:
         lines = build_lines(cases)
-        shards = max(1, min(shards, len(lines) // 300 + 1))
-        files = []
-        for s in range(shards):
-            f = tmp / f"shard{s}.ndjson"
-            f.write_text("\n".join(lines[s::shards]) + "\n")
-            files.append(f)
-
-        def one(f):
-            return tlc.must_ok(tlc.run("Edit_Trace", "Edit_Trace.cfg", workers=1, env={"TRACE_FILE": str(f)}, timeout=3600),
-                               f"Edit_Trace {f.name}")
-        with ThreadPoolExecutor(max_workers=shards) as ex:
-            results = list(ex.map(one, files))
+        results = tlc.run_sharded("Edit_Trace", "Edit_Trace.cfg", lines, what="Edit_Trace", per_shard=12000,
+                                  min_shards=max(1, min(shards, len(lines) // 300 + 1)))
+        shards = len(results)
         verdicts: dict = {}
         nsteps = 0
         for res in results:
